@@ -130,6 +130,13 @@ func init() {
 		}
 		panic("Clean")
 	}
+	rt["And"] = func(fr *frame, args []value) value { return symAnd(args[0], args[1]) }
+	rt["Or"] = func(fr *frame, args []value) value { return symOr(args[0], args[1]) }
+	rt["Not"] = func(fr *frame, args []value) value { return symNot(args[0]) }
+	rt["Implies"] = func(fr *frame, args []value) value { return symOr(symNot(args[0]), args[1]) }
+	rt["StrEq"] = func(fr *frame, args []value) value {
+		return fr.i.ex.ropeEq(toRope(args[0]), toRope(args[1]))
+	}
 	rt["Tier"] = func(fr *frame, args []value) value { return fr.i.ex.tier }
 	rt["Symbolic"] = func(fr *frame, args []value) value { return true }
 	rt["Quiesce"] = func(fr *frame, args []value) value {
